@@ -141,6 +141,12 @@ def run(ctx):
                             continue
                         jobs.append((ctx.repo, "convolve", D, N, M, 1, 0, 1, 2, 2, flags, 1, padding, list(ldil), 1))
                         jobs.append((ctx.repo, "convolve_contract", D, N, M, 1, 1, 1, 1, 2, flags, 1, padding, list(ldil), 1))
+        # a few unusual option values: 5-sided filters, dilation 3, stride 3, a single channel
+        if D == 2:
+            for padding in ("TORUS", "SAME", [[2, 2], [2, 2]]):
+                jobs.append((ctx.repo, "convolve", D, (5, 6), (5, 5), 1, 0, 1, 1, 2, (True, False), 1, padding, None, 1))
+                jobs.append((ctx.repo, "convolve", D, (4, 5), (3, 3), 0, 1, 1, 1, 1, (False, True), 3, padding if isinstance(padding, str) else "VALID", None, 3))
+                jobs.append((ctx.repo, "convolve_contract", D, (4, 5), (3, 5), 1, 1, 1, 4, 1, (True, True), 1, padding if isinstance(padding, str) else [[1, 1], [2, 2]], None, 1))
         # even filters must be rejected with TORUS / SAME / default
         for padding in ("TORUS", "SAME", None):
             jobs.append((ctx.repo, "convolve", D, N, (2,) * D, 0, 0, 1, 1, 1, True, 1, padding, None, 1))
